@@ -356,10 +356,13 @@ def run (inp obs : List String) : Verdict :=
           let bad := (((layers.zip seqMaps).zip seqDirs).zip states).filterMap fun q =>
             let p := q.1
             let li := p.1.1
-            match p.1.2, ds.find? (·.name = li.name), ss.find? (·.dir = li.dir) with
+            -- with a directory component in `contents` the save may fail or land elsewhere (C09's business): only the
+            -- load is compared with the model then; par = seq is compared as always
+            let sObs := if dirComp then some (⟨li.dir, []⟩ : SaveObs) else ss.find? (·.dir = li.dir)
+            match p.1.2, ds.find? (·.name = li.name), sObs with
             | some m, some o, some s =>
               if !layerMatches li m o then some ("load:" ++ String.ofList li.name)
-              else if dirComp then none   -- where such a file lands on save is C09's business; par = seq is still compared
+              else if dirComp then none
               else if ops.isEmpty then
                 (if !saveMatches li p.2 s then some ("save:" ++ String.ofList li.name) else none)
               else match es.find? (·.name = li.name) with
